@@ -946,9 +946,9 @@ func (f *frame) safety(kind string, in siteT, goal Term, what string) {
 		return
 	}
 	pos := f.pos(in.Pos())
-	name := fmt.Sprintf("%s#%s@L%d:%s", shortFn(f.c.fn), kind, pos.Line, what)
+	name := fmt.Sprintf("%s#%s:%s", shortFn(f.c.fn), kind, what)
 	if !f.top {
-		name = fmt.Sprintf("%s#%s@L%d:%s[in %s]", shortFn(f.c.fn), kind, f.pos(f.callerPos).Line, what, shortFn(f.fn))
+		name = fmt.Sprintf("%s#%s:%s[in %s]", shortFn(f.c.fn), kind, what, shortFn(f.fn))
 	}
 	f.c.oblige(kind, name, f.guard, goal, pos, what)
 	// after the check the execution continues only if it held
